@@ -392,14 +392,16 @@ Definition rule_ok (r : srule) : Prop := cond_ok (sr_cond r) /\ Forall (fun pe =
 
 
 (** ---------- one consideration, in both readings ---------- *)
-Inductive sres := SFire (f : facts) | SNoFire | SAbort (k : Z).
+(** SAbort: the run ends with an error; the facts are those at the point of failure (assignments of the
+    failing rule made before the failing one stay) *)
+Inductive sres := SFire (f : facts) | SNoFire | SAbort (k : Z) (f : facts).
 
 Definition model_step (f : facts) (r : rule) : sres :=
   match consider f r with
   | ROk true f' => SFire f'
   | ROk false _ => SNoFire
-  | RErr _ => SAbort 1
-  | RPanicked => SAbort 2
+  | RErr f' => SAbort 1 f'
+  | RPanicked => SAbort 2 []
   end.
 
 (** None: the documented semantics does not define this consideration *)
@@ -433,7 +435,7 @@ Fixpoint pass (rs : list (Z * R)) (s : lstate) (any : bool) : option (lstate * Z
         match step (l_f s) r with
         | None => None
         | Some SNoFire => pass rest s1 any
-        | Some (SAbort k) => Some (s1, k, any)
+        | Some (SAbort k f') => Some ({| l_f := f'; l_fired := l_fired s; l_log := l_log s; l_nev := l_nev s + 1; l_nfired := l_nfired s |}, k, any)
         | Some (SFire f') =>
             pass rest {| l_f := f'; l_fired := i :: l_fired s; l_log := l_log s ++ [(i, f')]; l_nev := l_nev s + 1; l_nfired := l_nfired s + 1 |} true
         end
@@ -576,12 +578,14 @@ Definition dec_facts (s : sx) : option facts :=
   | L l => mapO (fun x => match x with L [k; v] => match getZs k, dec_val v with Some k, Some v => Some (k, v) | _, _ => None end | _ => None end) l
   | _ => None end.
 
+(** (firings with the facts after each, result, and what a second, plain `execute` run on the same input
+    returns: its result and the facts at the end) *)
 Definition enc_run (r : option (lstate * Z * Z)) : sx :=
   match r with
   | None => L [A (-1)]
   | Some (s, k, n) =>
-      L [L (map (fun '(i, f) => L [A i; enc_facts f]) (l_log s));
-         (if k =? 0 then L [A 0; A n; A (l_nev s); A (l_nfired s)] else L [A 1; A k])]
+      let res := if k =? 0 then L [A 0; A n; A (l_nev s); A (l_nfired s)] else L [A 1; A k] in
+      L [L (map (fun '(i, f) => L [A i; enc_facts f]) (l_log s)); res; L [res; enc_facts (l_f s)]]
   end.
 
 Definition dec_case (c : sx) : option (list srule * facts) :=
@@ -604,7 +608,7 @@ Definition run_sx (c : sx) : sx :=
       match compiled rs with
       | Some crs =>
           match enc_run (run_rules (fun f r => Some (model_step f r)) (sorted_model crs) f) with
-          | L [log; res] => L [L (map (fun '(sal, r) => enc_rule sal r) crs); log; res]
+          | L [log; res; fin] => L [L (map (fun '(sal, r) => enc_rule sal r) crs); log; res; fin]
           | x => x end
       | None => sx_bad end
   | None => sx_bad end.
@@ -666,14 +670,14 @@ Definition deref_hit (rs : list srule) (states : list facts) : bool :=
     0 = violation; 2 = violation of the known class C01-string-literal-names-a-fact *)
 Definition ok_sx (c o : sx) : Z :=
   match dec_case c, o with
-  | Some (rs, f), L [parsed; log; res] =>
+  | Some (rs, f), L [parsed; log; res; fin] =>
       match compiled rs with
       | Some crs =>
           if negb (sx_eqb parsed (L (map (fun '(sal, r) => enc_rule sal r) crs))) then 0
           else match run_rules (sem_step false) (sorted_spec rs) f with
                | None => -1
                | Some (st, k, n) =>
-                   if sx_eqb (enc_run (Some (st, k, n))) (L [log; res])
+                   if sx_eqb (enc_run (Some (st, k, n))) (L [log; res; fin])
                    then (if forallb rule_okb rs && negb (is_none (run_rules (sem_step true) (sorted_spec rs) f)) then 1 else -2)
                    else if deref_hit rs (f :: map snd (l_log st)) then 2 else 0
                end
